@@ -377,6 +377,12 @@ def C33_outline_array_option():
 
 
 @case
+def C33_outline_print_array():
+    """An array element that occurs only inside PRINT in the region is declared as a procedure / scalar dummy."""
+    return outline('k = 0\n    !$loki outline\n    print *, ia(1)\n    k = 1\n    !$loki end outline')
+
+
+@case
 def C33_outline_associate_expr():
     """Region inside ASSOCIATE: the associate name is passed to the new routine without a type (INTENT(IN) :: z)."""
     return outline('k = 0\n    associate (z => n + 1)\n    !$loki outline\n    k = z\n    !$loki end outline\n    end associate')
